@@ -162,6 +162,11 @@ def fn_decl_c(m, cont_ty):
     recv = {"ref": "const struct %s *cont" % cont_ty, "mut": "struct %s *cont" % cont_ty, "own": "struct %s cont" % cont_ty}[m["recv"]]
     args = "".join(", %s%s%s" % (c_type(k, cont_ty), "" if c_type(k, cont_ty).endswith("*") else " ", n) for k, n in m["args"])
     rt = c_type(m["ret"], cont_ty)
+    if m.get("wrap") and m["args"]:
+        # an over-long member as cbindgen breaks it: one parameter per line, aligned after the opening parenthesis
+        head = "%s%s(*%s)(" % (rt, "" if rt.endswith("*") else " ", m["name"])
+        params = [recv] + ["%s%s%s" % (c_type(k, cont_ty), "" if c_type(k, cont_ty).endswith("*") else " ", n) for k, n in m["args"]]
+        return head + (",\n" + " " * (4 + len(head))).join(params) + ");"
     return "%s%s(*%s)(%s%s);" % (rt, "" if rt.endswith("*") else " ", m["name"], recv, args)
 
 
@@ -295,6 +300,10 @@ def fn_decl_cpp(m):
     recv = {"ref": "const CGlueC *cont", "mut": "CGlueC *cont", "own": "CGlueC cont"}[m["recv"]]
     args = "".join(", %s%s%s" % (cpp_type(k), "" if cpp_type(k).endswith("*") else " ", n) for k, n in m["args"])
     rt = cpp_type(m["ret"])
+    if m.get("wrap") and m["args"]:
+        head = "%s%s(*%s)(" % (rt, "" if rt.endswith("*") else " ", m["name"])
+        params = [recv] + ["%s%s%s" % (cpp_type(k), "" if cpp_type(k).endswith("*") else " ", n) for k, n in m["args"]]
+        return head + (",\n" + " " * (4 + len(head))).join(params) + ");"
     return "%s%s(*%s)(%s%s);" % (rt, "" if rt.endswith("*") else " ", m["name"], recv, args)
 
 
